@@ -610,6 +610,10 @@ func (pc *polyCtx) expand(v ssa.Value, depth int) poly {
 		}
 	case *ssa.Convert:
 		return pc.expand(x.X, depth+1)
+	case *ssa.UnOp:
+		if x.Op == token.SUB {
+			return polyMul(pc.expand(x.X, depth+1), poly{"": -1})
+		}
 	case *ssa.BinOp:
 		switch x.Op {
 		case token.ADD:
